@@ -977,6 +977,72 @@ def inventory():
     return [("Purity", "", out[0:2]), ("PanicSites", "", out[2:3]), ("IterBodies", "", out[3:5]), ("SerdeShape", "", out[5:6]), ("ContextPolicies", "", out[6:7])]
 
 
+FP_GROUPS = {
+    # group -> [(file, [function names]; an empty list = every fn item of the file)]
+    "Lexer": [("token/mod.rs", ["char_to_partial_token", "is_leftsided_value", "is_rightsided_value", "is_assignment", "parse_escape_sequence",
+                                "parse_string_literal", "try_skip_comment", "str_to_partial_tokens", "partial_tokens_to_tokens", "tokenize",
+                                "parse_dec_or_hex"])],
+    "Tree": [("tree/mod.rs", ["new", "root_node", "has_enough_children", "has_too_many_children", "insert_back_prioritized",
+                              "collapse_root_stack_to", "collapse_all_sequences", "tokens_to_operator_tree"]),
+             ("operator/mod.rs", ["precedence", "is_left_to_right", "is_sequence", "is_leaf", "max_argument_amount", "is_unary"])],
+    "Eval": [("tree/mod.rs", ["eval_with_context", "eval_with_context_mut"]),
+             ("operator/mod.rs", ["eval", "eval_mut", "value", "variable_identifier_write", "variable_identifier_read", "function_identifier"]),
+             ("error/mod.rs", ["expect_operator_argument_amount", "expect_number_or_string", "expected_type", "wrong_operator_argument_amount"]),
+             ("value/mod.rs", []), ("value/value_type.rs", []), ("function/mod.rs", ["call", "new"])],
+    "Context": [("context/mod.rs", [])],
+    "Builtin": [("function/builtin.rs", []), ("value/display.rs", [])],
+    "Numeric": [("value/numeric_types/default_numeric_types.rs", [])],
+    "Iter": [("tree/iter.rs", []),
+             ("tree/mod.rs", ["iter_identifiers", "iter_identifiers_mut", "iter_variable_identifiers", "iter_variable_identifiers_mut",
+                              "iter_read_variable_identifiers", "iter_read_variable_identifiers_mut", "iter_write_variable_identifiers",
+                              "iter_write_variable_identifiers_mut", "iter_function_identifiers", "iter_function_identifiers_mut",
+                              "children", "operator", "children_mut", "operator_mut"])],
+    "Interface": [("interface/mod.rs", []),
+                  ("tree/mod.rs", ["eval"] + [f"eval_{k}{m}" for k in ("string", "int", "float", "number", "boolean", "tuple", "empty")
+                                                for m in ("", "_with_context", "_with_context_mut")])],
+    "Serde": [("feature_serde/mod.rs", ["deserialize", "visit_str"])],
+}
+
+
+def all_fn_names(toks):
+    names = []
+    for i, t in enumerate(toks):
+        if t.kind == "id" and t.text == "fn" and i + 1 < len(toks) and toks[i + 1].kind == "id":
+            if toks[i + 1].text not in names:
+                names.append(toks[i + 1].text)
+    return names
+
+
+def fingerprints():
+    """sha256 of the normalised token text (signature + body) of every modelled function, per group:
+    the hand-written model was validated against exactly this text"""
+    import hashlib
+    res = []
+    for group, parts in FP_GROUPS.items():
+        def go(parts=parts):
+            rows = []
+            for rel, names in parts:
+                toks = load(rel)
+                raw = open(os.path.join(SRC, rel), encoding="utf-8").read()
+                if rel == "function/builtin.rs":
+                    # the macros are not fn items: fingerprint the whole file's token text
+                    rows.append((rel + "::<file>", hashlib.sha256(text_of(toks).encode()).hexdigest()[:32]))
+                    continue
+                _ = raw
+                for name in (names or all_fn_names(toks)):
+                    fns = find_fns(toks, name)
+                    if not fns:
+                        raise Unrecognised(f"{rel}: fn {name} not found")
+                    for k, (sig, body) in enumerate(fns):
+                        h = hashlib.sha256((text_of(sig) + " { " + text_of(body) + " }").encode()).hexdigest()[:32]
+                        rows.append((f"{rel}::{name}" + (f"#{k}" if len(fns) > 1 else ""), h))
+            body = ",\n".join(f"  0x{b}  /- {a} -/" for a, b in rows)
+            return (f"/-- normalised-source fingerprints of the functions the `{group}` part of the model transcribes -/\n"
+                    f"def fp{group} : List Nat := [\n{body}]\n")
+        res.append(("Fp" + group, "", [guarded("fp" + group, "List Nat", go)]))
+    return res
+
+
 def emit(name, imports, defs):
     header = ("/- GENERATED by /verif/translate.py from /repo/src on every run — do not edit. -/\n" + imports +
               "\nnamespace Evalexpr.Generated\nopen Evalexpr\n\n")
@@ -997,7 +1063,7 @@ def emit(name, imports, defs):
 def main():
     changed = []
     unrecognised = []
-    for extractor in (operator_tables, token_tables, builtin_tables, entry_points, inventory):
+    for extractor in (operator_tables, token_tables, builtin_tables, entry_points, inventory, fingerprints):
         for name, imports, defs in extractor():
             for d in defs:
                 if "unrecognised_source_shape" in d:
